@@ -1717,9 +1717,11 @@ Examples:
         def func(x, *args, **kwds):
             xtype = type(x)
             x = asarray(list(x)) #XXX: faster to use array(x, copy=True) ?
-            x = x.astype(result_type(x, asarray(target))) # can hold target
+            _t = asarray(target, dtype=float) # (integers can't hold a fraction)
+            if x.dtype.kind in 'iub' and not (_t - _t.round() == 0).all():
+                x = x.astype(result_type(x, _t))
             n = len(x) # only use the indices (and their targets) that are in range
-            if hasattr(target, '__len__'):
+            if _t.size > 1: # one target per index
                 at = [(i,t) for (i,t) in zip(index, target) if -n <= i < n]
                 x[[i for (i,t) in at]] = [t for (i,t) in at]
             else:
